@@ -21,6 +21,21 @@ impl IRes {
 
 macro_rules! width_fns {
 	($t:ty, $enc:ident, $dec:ident, $len:ident) => {
+		/// the other entry points of the same value: using_encoded (Compact and CompactRef),
+		/// CompactRef::encode, size_hint, encoded_size
+		fn $len(v: u128) -> Option<(Vec<u8>, Vec<u8>, Vec<u8>, usize, usize)> {
+			let v = v as $t;
+			catch_unwind(|| {
+				(
+					Compact(v).using_encoded(|s| s.to_vec()),
+					parity_scale_codec::CompactRef(&v).using_encoded(|s| s.to_vec()),
+					parity_scale_codec::CompactRef(&v).encode(),
+					Compact(v).size_hint(),
+					Compact(v).encoded_size(),
+				)
+			})
+			.ok()
+		}
 		fn $enc(v: u128) -> Option<(Vec<u8>, usize)> {
 			let v = v as $t;
 			catch_unwind(|| (Compact(v).encode(), <Compact<$t> as CompactLen<$t>>::compact_len(&v))).ok()
@@ -60,6 +75,15 @@ fn enc_w(b: u32, v: u128) -> Option<(Vec<u8>, usize)> {
 		4 => enc32(v),
 		8 => enc64(v),
 		_ => enc128(v),
+	}
+}
+fn others_w(b: u32, v: u128) -> Option<(Vec<u8>, Vec<u8>, Vec<u8>, usize, usize)> {
+	match b {
+		1 => len8(v),
+		2 => len16(v),
+		4 => len32(v),
+		8 => len64(v),
+		_ => len128(v),
 	}
 }
 fn dec_w(b: u32, inp: &[u8], known: bool) -> IRes {
@@ -111,6 +135,13 @@ fn enc_case(cx: &mut Ctx, b: u32, v: u128) {
 			// oracle on the implementation alone
 			cx.oracle.check(bytes.len() == spec_len(v), "enc-not-shortest", || rp.clone());
 			cx.oracle.check(clen == bytes.len(), "compact-len-mismatch", || rp.clone());
+			match others_w(b, v) {
+				Some((u1, u2, r, hint, size)) => {
+					cx.oracle.check(u1 == bytes && u2 == bytes && r == bytes, "compact-entry-points-differ", || format!("{rp}\tusing_encoded={} ref.using_encoded={} ref.encode={}", hex(&u1), hex(&u2), hex(&r)));
+					cx.oracle.check(size == bytes.len() && hint == bytes.len(), "compact-len-mismatch", || format!("{rp}\tsize_hint={hint} encoded_size={size}"));
+				},
+				None => cx.oracle.check(false, "enc-panic", || rp.clone()),
+			}
 			for known in [true, false] {
 				cx.oracle.check(dec_w(b, &bytes, known) == IRes::Ok(v, bytes.len()), "roundtrip", || rp.clone());
 			}
